@@ -53,8 +53,10 @@ RULE = (
     "replies; distinct = distinct (configuration, history, environment)"
 )
 ASSUMPTIONS = [
-    "security-access seeds (positive replies 67 <odd> ...) are exempt including their length; a sendKey reply that directly "
-    "follows a seed is compared only when both processes agree on whether the key equals the seed",
+    "security-access seeds (positive replies 67 <odd> ...) are exempt including their length (an empty seed occurs in about 6% of the "
+    "requests); the reply to a sendKey-shaped request (27 <even> ...) is compared only when both processes agree on the pending-seed "
+    "situation it meets (no pending seed / key equals seed / key differs; for harness-computed keys also whether the key is empty), "
+    "because that situation is a function of the fresh seeds; no other reply depends on it",
     "sessions are taken from 1..0x7E (RandomUDSServer.randomize indexes a 0x7F-element table; session 0x7F makes setup() raise IndexError and is not part of the workload)",
     "'at different times' is exercised as constant offsets of time.time/time.monotonic (+1e9 s, -1.7e9 s, +3e9 s) installed before gallia is imported; "
     "gaps between requests stay far below the 10 s inactivity reset (children with a gap > 4 s are discarded as harness noise)",
@@ -90,6 +92,9 @@ MAX_GAP = 4.0
 # one root cause, one key: the session graph is generated independently of whether DiagnosticSessionControl ends up among the
 # services of a session; when the user takes it out of mandatory_services, sessions of the model become unreachable / dead ends
 NODSC_KEY = "model/session-graph-not-usable/dsc-not-mandatory"
+# The statement quantifies over mandatory lists "incl. empty", so this is reported.  Set to False to only count it
+# (reach counters walk.unreachable-in-model/dsc-not-mandatory, walk.no-return/dsc-not-mandatory).
+DSC_NOT_MANDATORY_IS_VIOLATION = True
 
 
 # =================================================================================================
@@ -664,8 +669,11 @@ def first_transcript_diff(ta: list[list[Any]], tb: list[list[Any]]) -> tuple[int
     compared = skipped = 0
     for i in range(min(len(ta), len(tb))):
         (ra, da), (rb, db) = ta[i], tb[i]
-        if da is not None and db is not None and da != db:
-            skipped += 1  # one process happened to receive a key equal to its fresh seed: exempt by the statement
+        if da != db:
+            # the seed-dependence descriptors differ: the two processes handed out different fresh seeds (other value, other
+            # length, possibly empty) and this sendKey-shaped request meets a different pending-seed state.  Exempt by the
+            # statement; nothing but sendKey replies depends on that state.
+            skipped += 1
             continue
         compared += 1
         if ra != rb:
@@ -743,7 +751,7 @@ def run_config(rn: Runner, tier: str, vseed: int, cfg: dict[str, Any], deadline_
                     viol("server/hang", "the virtual ECU itself hangs (reproduced in two processes, stack inside services/uds/server.py)",
                          {**base_w, "kind": "hang", "env_a": env, "env_b": env, "history": history, "walk": walk, "traceback": tb[-1500:]})
                 else:
-                    rep["timeouts"].append(f"config {cfg['index']} {tag}: child timed out twice outside the server code: {tb[-400:]}")
+                    rep["timeouts"].append(f"config {cfg['index']} {tag}: child timed out twice outside the server code: {tb[-200:]}")
                 return None
             rep["notes"].append(f"config {cfg['index']} {tag}: one child timed out, the retry completed")
             bump("child.timeout-then-ok")
@@ -859,7 +867,6 @@ def run_config(rn: Runner, tier: str, vseed: int, cfg: dict[str, Any], deadline_
         if kind == "transcript":
             idx = detail["index"]
             wit["request"] = history[idx] if idx < len(history) else None
-            wit["session_before"] = None
         for d in blamed:
             suffix = f"/sid-{sid_of(history, detail['index'])}" if kind == "transcript" else ""
             name = {"outcome": "setup-outcome"}.get(kind, kind)
@@ -912,6 +919,13 @@ def judge_model(cfg: dict[str, Any], w: dict[str, Any], viol: Any, bump: Any, ba
     default_behavior = all(w["behavior_effective"].values())
     walks = {x["session"]: x for x in w.get("walks", [])}
     bump("walk.configs")
+    if not dsc_mandatory and not DSC_NOT_MANDATORY_IS_VIOLATION:
+        inner_viol = viol
+
+        def viol(key: str, what: str, witness: dict[str, Any]) -> None:  # noqa: F811
+            if key != NODSC_KEY:
+                inner_viol(key, what, witness)
+
     for s in sorted(M):
         x = walks.get(s)
         if x is None:
@@ -947,7 +961,7 @@ def judge_model(cfg: dict[str, Any], w: dict[str, Any], viol: Any, bump: Any, ba
 
 def run(ctx: Any, params: dict[str, Any]) -> None:
     scratch = ctx.mkscratch()
-    rn = Runner(scratch, 60.0 if ctx.tier == "quick" else 120.0)
+    rn = Runner(scratch, float(os.environ.get("VERIF_C16_CHILD_TIMEOUT", 60.0 if ctx.tier == "quick" else 120.0)))
     cfgs = [gen_config(ctx.seed, i) for i in params["configs"]]
     problems: list[str] = []
     models: dict[int, str | None] = {}
